@@ -433,6 +433,20 @@ func execC11(c *hlib.Ctx, tok []string) string {
 		if bad > 0 {
 			c.Violation("symbol-mismatch", fmt.Sprintf("%d of %d symbol lookups differ from the full index", bad, len(ix.symbols)))
 		}
+		// symbols that share a slot of the header's direct-mapped symbol cache (1024 slots), interleaved
+		if len(ix.symbols) > 1024 {
+			bad2 := 0
+			for i := 0; i+1024 < len(ix.symbols); i += 37 {
+				for _, j := range []int{i, i + 1024, i, i + 1024} {
+					if got, err := h.LookupSymbol(context.Background(), uint32(j)); err != nil || got != ix.symbols[j] {
+						bad2++
+					}
+				}
+			}
+			if bad2 > 0 {
+				c.Violation("symbol-mismatch", fmt.Sprintf("%d interleaved lookups of symbols 1024 apart differ from the full index", bad2))
+			}
+		}
 		if _, err := h.LookupSymbol(context.Background(), uint32(len(ix.symbols))); err == nil {
 			c.Violation("symbol-mismatch", "lookup past the last symbol succeeds")
 		}
@@ -609,6 +623,15 @@ func genWanted(c *hlib.Ctx, vs []string) []string {
 
 func genC11(c *hlib.Ctx) {
 	r := c.R
+	// one index with more symbols than the header's symbol cache has slots (meta checks only)
+	{
+		var hv []string
+		for i := 0; i < 1300; i++ {
+			hv = append(hv, hlib.HexS(fmt.Sprintf("val%05d", i)))
+		}
+		c.Count("index:more-than-1024-symbols")
+		c.Do(fmt.Sprintf("o.ih.meta %d %s", r.Range(1, 64), hlib.HexS("big")+"="+strings.Join(hv, ",")), true)
+	}
 	indexes := c.N(40, 260) // (every op line carries the index spec: ~2 KB per line)
 	for it := 0; it < indexes; it++ {
 		n := []int{1, 2, 3, 4, 5, 8, 16, 32, 64, r.Range(1, 64)}[r.Intn(10)]
